@@ -17,16 +17,18 @@ import (
 
 // CheckSpec is /verif/harness/<ID>/check.json.
 type CheckSpec struct {
-	PropertyID  string            `json:"property_id"`
-	Title       string            `json:"title"`
-	Bounds      map[string]string `json:"bounds"` // tier -> text
-	Assumptions []string          `json:"assumptions"`
-	NotCovered  []string          `json:"not_covered"`
-	Files       []string          `json:"files"`    // harness files relative to the check dir
-	Deadline    map[string]string `json:"deadline"` // tier -> duration
-	MaxPaths    map[string]int    `json:"max_paths"`
-	Validate    map[string]int    `json:"validate"` // tier -> number of paths validated natively per harness
-	StepLimit   int64             `json:"step_limit"`
+	PropertyID     string            `json:"property_id"`
+	Title          string            `json:"title"`
+	Bounds         map[string]string `json:"bounds"` // tier -> text
+	Assumptions    []string          `json:"assumptions"`
+	NotCovered     []string          `json:"not_covered"`
+	Files          []string          `json:"files"`    // harness files relative to the check dir
+	Deadline       map[string]string `json:"deadline"` // tier -> duration
+	MaxPaths       map[string]int    `json:"max_paths"`
+	Validate       map[string]int    `json:"validate"` // tier -> number of paths validated natively per harness
+	StepLimit      int64             `json:"step_limit"`
+	Solver         string            `json:"solver"` // z3 (default), z3-new, cvc5
+	QueryTimeoutMs int               `json:"query_timeout_ms"`
 }
 
 type knownFinding struct {
@@ -144,7 +146,8 @@ func cmdCheck(args []string) int {
 		}
 	}
 	cfg := interp.Config{Workers: *workers, Deadline: deadline, MaxPaths: spec.MaxPaths[*tier], Verbose: *verbose,
-		ModulePrefix: "github.com/crossplane/crossplane", Seed: seed, StepLimit: spec.StepLimit}
+		ModulePrefix: "github.com/crossplane/crossplane", Seed: seed, StepLimit: spec.StepLimit,
+		Solver: spec.Solver, QueryTimeoutMs: spec.QueryTimeoutMs}
 	nValidate := 32
 	if n, ok := spec.Validate[*tier]; ok {
 		nValidate = n
@@ -470,4 +473,14 @@ func obsText(obs []interp.Observation) [][]string {
 		out = append(out, append([]string{o.Key}, o.Vals...))
 	}
 	return out
+}
+
+func solverLabel(k string) string {
+	switch k {
+	case "z3-new":
+		return "z3 5.1.0 (z3-new -in)"
+	case "cvc5":
+		return "cvc5 1.0 (--incremental)"
+	}
+	return "z3 4.8.12 (/usr/bin/z3 -in)"
 }
